@@ -1114,7 +1114,8 @@ SPEC = {
                     'the absence of panics and the sufficiency of every fuel; it cannot exhibit panics inside nom, flate2, weezl, encoding_rs, '
                     'stringprep, rangemap (assumed total), the real stack limit and allocator (approximated by depth/alloc annotations; '
                     'measured in a release and, for the nesting boundary, a debug worker), wall-clock time; not proved: an allocation bound '
-                    'for the composed loader, the Encrypt branch of read. No open known finding (C04-objstm-shared-offsets is '
+                    'for the composed loader, totality of the decrypt attempt at the end of read (the reader\'s own part of the Encrypt branch is '
+                    'covered: C04_load_enc_*, for every total attempt). No open known finding (C04-objstm-shared-offsets is '
                     'repaired: the work of one object stream is linear, C04_objstm_work).',
     'impl_timeout': 2400,
     'model_timeout': 2400,
@@ -1178,7 +1179,8 @@ MANIFEST = {
                   'entry points, and for Reader::read (on the models of C01, C02, C14) the absence of panics and the sufficiency of every '
                   'fuel; it cannot exhibit panics inside nom, flate2, weezl, encoding_rs, stringprep, rangemap (assumed total), '
                   'the real stack limit and allocator (approximated by depth/alloc annotations), wall-clock time; not proved: an '
-                  'allocation bound for the composed loader, the Encrypt branch of read. No open known finding '
+                  'allocation bound for the composed loader, totality of the decrypt attempt at the end of read (the reader\'s own part of the '
+                  'Encrypt branch is covered: C04_load_enc_*, for every total attempt). No open known finding '
                   '(C04-objstm-shared-offsets is repaired: the work of one object stream is linear, C04_objstm_work).',
     'technique': 'Coq proof (outcome/cost monad, induction over loops and fuel, progress lemmas for the grammar, pigeonhole for the Prev loop, '
                  'lia per panic site) + outcome-class correspondence with an isolated worker process (timeout, 2 MiB stack, counting '
